@@ -16,14 +16,21 @@ VERIF = os.path.dirname(os.path.dirname(os.path.abspath(__file__)))
 REPO = "/repo"
 
 
+AS_PROP = None
+
+
 def run_one(patch):
     head = open(patch).read(2000)
     silent = re.search(r"#\s*expect-silent:\s*(C\d+)", head)
+    if re.search(r"#\s*expect-silent:\s*ALL", head):
+        return run_all_silent(patch)
     m = re.search(r"#\s*expect:\s*(C\d+)\s+(.*)", head)
     if not m and not silent:
         return (patch, False, "no '# expect:' header")
     if silent:
         prop, frags = silent.group(1), []
+    elif re.search(r"#\s*expect-silent:\s*ALL", head):
+        pass
     else:
         prop, frags = m.group(1), [x.strip() for x in m.group(2).split("|")]
     tmp = tempfile.mkdtemp(prefix="pest-mutant-")
@@ -55,8 +62,40 @@ def run_one(patch):
         shutil.rmtree(tmp, ignore_errors=True)
 
 
+def run_all_silent(patch):
+    """`# expect-silent: ALL`: every claimed check (or the one given with --as) must stay silent."""
+    import json
+    props = [AS_PROP] if AS_PROP else [c["property_id"] for c in json.load(open(os.path.join(VERIF, "MANIFEST.json")))["checks"]]
+    tmp = tempfile.mkdtemp(prefix="pest-mutant-")
+    try:
+        scratch = os.path.join(tmp, "repo")
+        subprocess.check_call(["rsync", "-a", "--exclude", "target", "--exclude", ".git", REPO + "/", scratch + "/"])
+        p = subprocess.run(["patch", "-p1", "-s", "-i", os.path.abspath(patch)], cwd=scratch,
+                           stdout=subprocess.PIPE, stderr=subprocess.STDOUT, text=True)
+        if p.returncode != 0:
+            return (patch, False, "patch does not apply: " + p.stdout[-300:])
+        env = dict(os.environ, PEST_REPO=scratch, PEST_CACHE=os.path.join(tmp, "cache"),
+                   PEST_EVIDENCE_DIR=os.path.join(tmp, "evidence"), PEST_REPLAY_DIR=os.path.join(tmp, "replay"))
+        bad = []
+        for prop in props:
+            q = subprocess.run([os.path.join(VERIF, "check"), prop, "--tier", "quick"], cwd=VERIF, env=env,
+                               stdout=subprocess.PIPE, stderr=subprocess.STDOUT, text=True)
+            if q.returncode != 0 or "VIOLATION" in q.stdout:
+                bad.append("%s: %s" % (prop, q.stdout[-600:]))
+        if bad:
+            return (patch, False, "FALSE ALARM on a behaviour-preserving change: " + " | ".join(bad))
+        return (patch, True, "%d check(s) silent on a behaviour-preserving change (negative control)" % len(props))
+    finally:
+        shutil.rmtree(tmp, ignore_errors=True)
+
+
 def main():
+    global AS_PROP
     args = sys.argv[1:]
+    if "--as" in args:
+        i = args.index("--as")
+        AS_PROP = args[i + 1]
+        del args[i:i + 2]
     jobs = 4
     if "--jobs" in args:
         i = args.index("--jobs")
